@@ -20,6 +20,9 @@ def ensure_deps():
         subprocess.check_call([sys.executable, "-m", "pip", "install", "-q", "--no-index",
                                "--find-links", "/opt/veriftools/wheels", "hypothesis"])
     deps = os.path.join(VERIF, ".deps")
+    if not os.path.isdir(os.path.join(deps, "atheris")):
+        subprocess.call([sys.executable, "-m", "pip", "install", "-q", "--no-index", "--find-links",
+                         "/opt/veriftools/wheels", "--target", deps, "atheris"])
     if deps not in sys.path:
         sys.path.append(deps)
 
